@@ -407,7 +407,10 @@ def transpile_structure(
             vyxal.structure.ForLoop,
             vyxal.structure.WhileLoop,
         ):
-            return indent_str("break", indent)
+            # leaving the iteration early must undo the loop's context push
+            return indent_str("ctx.context_values.pop()", indent) + indent_str(
+                "break", indent
+            )
         elif struct.parent_structure == vyxal.structure.FunctionDef:
             return (
                 indent_str("ctx.inputs.pop()", indent)
@@ -430,7 +433,9 @@ def transpile_structure(
             vyxal.structure.ForLoop,
             vyxal.structure.WhileLoop,
         ):
-            return indent_str("continue", indent)
+            return indent_str("ctx.context_values.pop()", indent) + indent_str(
+                "continue", indent
+            )
         elif struct.parent_structure == vyxal.structure.FunctionDef:
             return indent_str(
                 "stack.append(this(stack, this, ctx=ctx))", indent
